@@ -12,7 +12,8 @@ CORPUS = core.VERIF / "harness" / "corpus" / "C13"
 
 TRUSTED = [
     "translator/c13.py (TYPE_LISTs, guard sequences of ArrayBase._validate / Photon.array / Photon.array_3d setters, "
-    "Detector bucket setters -> Gen_C13.src_tables; fails closed on any other shape; TYPE_LISTs cross-checked "
+    "Detector bucket setters, shapes of Photon.__iadd__/__add__/__eq__ and ArrayBase.__iadd__/__add__/__eq__, "
+    "array_2d delegation -> Gen_C13.src_tables; fails closed on any other shape; TYPE_LISTs cross-checked "
     "against the imported classes)",
     "numpy's in-place output-casting rule is generated data: can_cast(result_type(dst, src), dst, 'same_kind') over "
     "15 dtypes, cross-checked by executing `dst += src` in the installed numpy",
@@ -52,38 +53,70 @@ def prod(s):
 
 def gen_values(r, dt, n, vclass, budget):
     """n cells of the given value class that fit dtype `dt`; budget[0] bounds the sum of magnitudes of a case
-    (all partial sums stay below 2048, exact in float16)."""
+    (all partial sums stay below 2048, exact in float16).  `vclass` may name several classes joined by '+'
+    (e.g. 'neg+nan': a negative value AND a NaN in the same array, at different positions where n allows it)."""
     lo, hi = INT_RANGE.get(dt, (-10 ** 9, 10 ** 9))
     cap = max(1, min(60, budget[0] // 2))
     floaty = dt in FLOATS or dt in ("complex64", "complex128", "object")
+    parts = vclass.split("+")
+    vclass = parts[0]
     if vclass == "wrap" and dt in ("uint8", "int8") and budget[0] >= 600:
         m = 250 if dt == "uint8" else 120
         budget[0] -= m
         return [r.randrange(m - 20, m + 1) for _ in range(n)]
-    if vclass in ("nan", "inf", "ninf") and not floaty:
-        vclass = "neg"
-    if vclass == "neg" and lo >= 0:
-        vclass = "pos"
     top = min(cap, hi)
     budget[0] -= top
-    if vclass == "zero":
+    if vclass == "zero" and len(parts) == 1:
         return [0] * n
-    vals = [r.randrange(0, top + 1) for _ in range(n)]
-    if vclass == "pos":
-        return vals
-    k = r.randrange(n)
-    if vclass == "neg":
-        vals[k] = -r.randrange(1, min(top, -lo) + 1)
-        if n > 1 and r.random() < 0.5:
-            j = r.randrange(n)
-            vals[j] = -r.randrange(1, min(top, -lo) + 1)
-    elif vclass == "nan":
-        vals[k] = "nan"
-    elif vclass == "inf":
-        vals[k] = "inf"
-    elif vclass == "ninf":
-        vals[k] = "-inf"
+    if vclass == "allneg" and lo < 0:
+        return [-r.randrange(1, min(top, -lo) + 1) for _ in range(n)]
+    vals = [0] * n if vclass == "zero" else [r.randrange(0, top + 1) for _ in range(n)]
+    free = list(range(n))
+    r.shuffle(free)
+    for cls in parts:
+        if cls in ("nan", "inf", "ninf") and not floaty:
+            cls = "neg"
+        if cls == "neg" and lo >= 0:
+            continue
+        if cls not in ("neg", "nan", "inf", "ninf") or not n:
+            continue
+        k = free.pop() if free else r.randrange(n)
+        if cls == "neg":
+            vals[k] = -r.randrange(1, min(top, -lo) + 1)
+            if free and r.random() < 0.5:
+                vals[free.pop()] = -r.randrange(1, min(top, -lo) + 1)
+        else:
+            vals[k] = {"nan": "nan", "inf": "inf", "ninf": "-inf"}[cls]
     return vals
+
+
+def gen_vclass(r, names, weights, p_mix=0.3):
+    """A value class; with probability p_mix a combination of two or three classes in one array (the clipping
+    and comparison code paths treat NaN / infinities / negatives differently when they occur TOGETHER)."""
+    v = r.choices(names, weights)[0]
+    if v in ("wrap", "allneg") or r.random() >= p_mix:
+        return v
+    extra = [x for x in ("neg", "nan", "inf", "ninf") if x != v]
+    r.shuffle(extra)
+    return "+".join([v] + extra[:r.choice([1, 1, 2])])
+
+
+def value_class(a) -> str:
+    """Which special values an operand contains (distribution only)."""
+    if a is None:
+        return "none"
+    d = a["data"]
+    tags = []
+    ints = [v for v in d if isinstance(v, int)]
+    if any(v < 0 for v in ints):
+        tags.append("allneg" if len(ints) == len(d) and all(v < 0 for v in ints) and len(d) > 1 else "neg")
+    if "nan" in d:
+        tags.append("nan")
+    if "inf" in d:
+        tags.append("inf")
+    if "-inf" in d:
+        tags.append("ninf")
+    return "+".join(tags) if tags else "plain"
 
 
 def gen_shape(r, rows, cols, cls):
@@ -116,7 +149,7 @@ def gen_np(r, bucket, rows, cols, budget, p_valid, shape_cls=None, dt=None, vcla
     if dt is None:
         dt = r.choice(ALLOWED[bucket]) if r.random() < p_valid else r.choice(DTYPES)
     if vclass is None:
-        vclass = r.choices(["pos", "neg", "nan", "inf", "ninf", "zero", "wrap"], [50, 22, 7, 5, 4, 4, 8])[0]
+        vclass = gen_vclass(r, ["pos", "neg", "nan", "inf", "ninf", "zero", "wrap", "allneg"], [46, 20, 8, 5, 4, 4, 8, 5])
     return {"xr": None, "shape": shape, "dt": dt, "data": gen_values(r, dt, prod(shape), vclass, budget)}
 
 
@@ -143,7 +176,7 @@ def gen_xr(r, rows, cols, budget, p_valid, w=None, dt=None, vclass=None, form=No
     if dt is None:
         dt = r.choice(FLOATS) if r.random() < max(p_valid, 0.5) else r.choice(DTYPES)
     if vclass is None:
-        vclass = r.choices(["pos", "neg", "nan", "inf", "ninf", "zero"], [55, 25, 7, 5, 4, 4])[0]
+        vclass = gen_vclass(r, ["pos", "neg", "nan", "inf", "ninf", "zero", "allneg"], [50, 24, 8, 5, 4, 4, 5])
     return {"xr": {"dims": dims, "wl": wl}, "shape": shape, "dt": dt,
             "data": gen_values(r, dt, prod(shape), vclass, budget)}
 
@@ -193,11 +226,11 @@ def gen_case(r, det, bucket, rows, cols, n_ops, p_valid):
     ops, budget, last_valid = [], [1900], None
     photon = bucket == "photon"
     if photon:
-        names = ["set", "set3d", "iadd", "add", "empty", "read", "read3d", "eq", "eqrev", "dassign", "dempty"]
-        weights = [20, 12, 24, 6, 6, 8, 5, 6, 4, 6, 3]
+        names = ["set", "set3d", "iadd", "add", "empty", "read", "read3d", "eq", "eqrev", "dassign", "dempty", "asarray"]
+        weights = [20, 12, 24, 6, 6, 8, 5, 6, 4, 6, 3, 3]
     else:
-        names = ["set", "update", "iadd", "add", "empty", "read", "eq", "eqrev", "dassign", "dempty"]
-        weights = [22, 12, 20, 6, 6, 10, 8, 5, 0 if bucket == "phase" else 6, 4]
+        names = ["set", "update", "iadd", "add", "empty", "read", "eq", "eqrev", "dassign", "dempty", "asarray"]
+        weights = [22, 12, 20, 6, 6, 10, 8, 5, 2 if bucket == "phase" else 6, 4, 3]   # MKID has no phase setter: AttributeError
     holds3d = False
     while len(ops) < n_ops:
         k = r.choices(names, weights)[0]
@@ -207,6 +240,8 @@ def gen_case(r, det, bucket, rows, cols, n_ops, p_valid):
                 o["arr"] = None
             else:
                 o["arr"] = gen_np(r, bucket, rows, cols, budget, p_valid)
+                if photon and r.random() < 0.25:
+                    o["via"] = "array_2d"          # the alias property of Photon
                 if is_valid_for(bucket, rows, cols, o["arr"]):
                     last_valid, holds3d = o["arr"], False
         elif k == "set3d":
@@ -217,6 +252,10 @@ def gen_case(r, det, bucket, rows, cols, n_ops, p_valid):
             if photon and (holds3d or r.random() < 0.15):
                 w = last_valid["shape"][0] if (holds3d and last_valid and r.random() < 0.85) else None
                 o["arr"] = gen_xr(r, rows, cols, budget, max(p_valid, 0.6), w=w)
+            elif not photon and r.random() < 0.07:
+                # a DataArray handed to an ArrayBase bucket (numpy adds it by position; the value of `nd += da` is a DataArray)
+                o["arr"] = gen_xr(r, rows, cols, budget, 0.5, form=r.choice(["2d", "2d", "good", "badyx"]),
+                                  dt=r.choice(ALLOWED[bucket]) if r.random() < 0.7 else r.choice(DTYPES))
             else:
                 cls = None
                 if r.random() < 0.15:
@@ -234,8 +273,13 @@ def gen_case(r, det, bucket, rows, cols, n_ops, p_valid):
         if k in ("empty", "dempty") or (k == "update" and o.get("arr") is None):
             holds3d = False
         ops.append(o)
-        if k not in ("read", "read3d", "eq", "eqrev") and len(ops) < n_ops and r.random() < 0.3:
-            ops.append({"op": "read3d" if (photon and holds3d and r.random() < 0.7) else "read"})
+        if k not in ("read", "read3d", "eq", "eqrev", "asarray") and len(ops) < n_ops and r.random() < 0.3:
+            if r.random() < 0.15:
+                ops.append({"op": "asarray"})
+            else:
+                ops.append({"op": "read3d" if (photon and holds3d and r.random() < 0.7) else "read"})
+                if photon and ops[-1]["op"] == "read" and r.random() < 0.25:
+                    ops[-1]["via"] = "array_2d"
     return {"det": det, "rows": rows, "cols": cols, "bucket": bucket, "ops": ops[:max(n_ops, 1)]}
 
 
@@ -258,6 +302,204 @@ def gen_cases(ctx: Ctx, n: int, salt: str, p_valid: float):
         cases.append(gen_case(r, det, bucket, rows, cols, n_ops, p_valid))
         i += 1
     return cases
+
+
+# ---- equality family: stored contents with large / closely spaced values compared with near copies
+BIG_TOP = {"float16": 2047, "float32": 2 ** 24 - 1, "float64": 2 ** 53 - 1, "uint8": 255, "uint16": 65535,
+           "uint32": 2 ** 32 - 1, "uint64": 2 ** 64 - 1}
+
+
+def big_values(r, dt, n):
+    """Exactly representable integers of dtype dt, most of them close to the top of the exact range (where an
+    approximate comparison, a narrowing conversion or a float round trip would lose the difference of 1)."""
+    top = BIG_TOP[dt]
+    mode = r.random()
+    out = []
+    for _ in range(n):
+        if mode < 0.55:
+            out.append(top - r.randrange(0, 64))
+        elif mode < 0.8:
+            out.append(r.randrange(0, top + 1))
+        else:
+            out.append(r.randrange(0, 60))
+    if dt == "float64" and r.random() < 0.25:
+        out[r.randrange(n)] = 2 ** r.choice([60, 100, 500, 1000])       # huge but finite, exact
+    return out
+
+
+def fits(dt, data):
+    return all(isinstance(v, int) and 0 <= v <= BIG_TOP[dt] for v in data)
+
+
+def gen_eq_case(r, det, bucket, rows, cols):
+    """set / set3d / update / dassign of a legal content, then == and its mirror against near copies."""
+    n = rows * cols
+    dt = r.choice(ALLOWED[bucket])
+    photon3d = bucket == "photon" and r.random() < 0.3
+    if photon3d:
+        w = r.choice([1, 2])
+        a = {"xr": {"dims": [0, 1, 2], "wl": WL[:w]}, "shape": [w, rows, cols], "dt": dt, "data": big_values(r, dt, w * n)}
+        ops = [{"op": "set3d", "arr": a}]
+    else:
+        a = {"xr": None, "shape": [rows, cols], "dt": dt, "data": big_values(r, dt, n)}
+        how = r.choice(["set", "set", "update", "dassign"]) if bucket not in ("photon", "phase") else \
+            r.choice(["set", "set", "dassign"]) if bucket == "photon" else r.choice(["set", "update"])
+        if how == "dassign":
+            ops = [{"op": "dassign", "other": {"kind": bucket, "rows": rows, "cols": cols, "content": a}}]
+        else:
+            ops = [{"op": how, "arr": a}]
+            if how == "set" and bucket == "photon" and r.random() < 0.3:
+                ops[0]["via"] = "array_2d"
+    kinds = buckets_of(det)
+    for _ in range(r.choice([2, 3, 4, 5])):
+        b = copy.deepcopy(a)
+        kind, ro, co = bucket, rows, cols
+        v = r.random()
+        if v < 0.2:
+            pass                                                   # identical
+        elif v < 0.45:                                             # one element differs by one
+            j = r.randrange(len(b["data"]))
+            x = b["data"][j]
+            b["data"][j] = x // 2 if x > BIG_TOP[b["dt"]] else x - 1 if x > 0 else x + 1    # stays exactly representable
+        elif v < 0.6:                                              # same values, another allowed dtype
+            cand = [d for d in ALLOWED[bucket] if d != dt and fits(d, b["data"])]
+            if cand:
+                b["dt"] = r.choice(cand)
+        elif v < 0.7:
+            b = None                                               # empty
+        elif v < 0.8 and not photon3d:                             # same array in a container of another kind
+            cand = [k for k in kinds if k != bucket and dt in ALLOWED[k]]
+            if cand:
+                kind = r.choice(cand)
+        elif v < 0.9:                                              # other geometry (content legal there)
+            ro, co = r.choice([g for g in GEOMS if g != (rows, cols)])
+            if r.random() < 0.5:
+                b = None
+            elif photon3d:
+                b = dict(b, shape=[b["shape"][0], ro, co], data=big_values(r, dt, b["shape"][0] * ro * co))
+            else:
+                b = dict(b, shape=[ro, co], data=big_values(r, dt, ro * co))
+        elif bucket == "photon":                                   # 2-D against 3-D
+            if photon3d:
+                b = {"xr": None, "shape": [rows, cols], "dt": dt, "data": a["data"][:n]}
+            else:
+                b = {"xr": {"dims": [0, 1, 2], "wl": WL[:1]}, "shape": [1, rows, cols], "dt": dt, "data": list(a["data"])}
+        ops.append({"op": r.choice(["eq", "eqrev"]), "other": {"kind": kind, "rows": ro, "cols": co, "content": b}})
+        if r.random() < 0.35:
+            ops.append(dict(ops[-1], op="eqrev" if ops[-1]["op"] == "eq" else "eq"))
+        if r.random() < 0.1:
+            ops.append({"op": "empty"})
+        elif r.random() < 0.15:
+            ops.append({"op": r.choice(["read3d" if photon3d else "read", "asarray"])})
+    return {"det": det, "rows": rows, "cols": cols, "bucket": bucket, "ops": ops}
+
+
+def gen_eq_cases(ctx: Ctx, n: int, salt: str = "eqfam"):
+    r = ctx.rng(salt)
+    dets = ["ccd", "cmos", "mkid", "apd"]
+    out = []
+    for i in range(n):
+        det = dets[i % 4]
+        rows, cols = r.choice(GEOMS)
+        out.append(gen_eq_case(r, det, r.choice(buckets_of(det)), rows, cols))
+    return out
+
+
+
+# ---- reset family and 3-D photon family: situations the general stream reaches too rarely (measured: `condition`)
+
+
+def gen_reset_case(r, det, bucket, rows, cols):
+    """content (finite, NaN or infinite), optional in-place addition, then a reset of some kind, then reads."""
+    budget = [1900]
+    ops = []
+    vc = r.choice(["pos", "pos", "pos+nan", "pos+inf", "pos+ninf", "zero", "pos+nan+inf"])
+    if bucket == "image":
+        vc = r.choice(["pos", "zero", "wrap"])
+    if bucket == "photon" and r.random() < 0.4:
+        ops.append({"op": "set3d", "arr": gen_xr(r, rows, cols, budget, 1.0, vclass=vc)})
+    elif r.random() < 0.85:
+        how = "update" if (bucket != "photon" and r.random() < 0.3) else "set"
+        ops.append({"op": how, "arr": gen_np(r, bucket, rows, cols, budget, 1.0, vclass=vc)})
+    if r.random() < 0.3:
+        ops.append({"op": "iadd", "arr": gen_np(r, bucket, rows, cols, budget, 0.9), "via": "detector"})
+    k = r.random()
+    if k < 0.55:
+        ops.append({"op": "dempty", "reset": r.random() < 0.65})
+    elif k < 0.8 or bucket == "photon":
+        ops.append({"op": "empty"})
+    else:
+        ops.append({"op": "update", "arr": None})
+    ops.append({"op": r.choice(["read", "asarray", "read3d" if bucket == "photon" else "read"])})
+    if r.random() < 0.5:
+        ops.append({"op": "eq", "other": {"kind": bucket, "rows": rows, "cols": cols, "content": None}})
+    if r.random() < 0.4:
+        ops.append({"op": "iadd", "arr": gen_np(r, bucket, rows, cols, budget, 0.9)})
+        ops.append({"op": "dempty", "reset": r.random() < 0.5})
+        ops.append({"op": "read"})
+    return {"det": det, "rows": rows, "cols": cols, "bucket": bucket, "ops": ops}
+
+
+def gen_3d_case(r, det, rows, cols):
+    """a multi-wavelength photon and everything that can be done to it"""
+    budget = [1900]
+    w = r.choice([1, 2, 3])
+    first = gen_xr(r, rows, cols, budget, 1.0, w=w, vclass=r.choice(["pos", "pos", "neg", "pos+nan", "zero"]))
+    ops = [{"op": "set3d", "arr": first}]
+    for _ in range(r.choice([2, 3, 4, 6])):
+        k = r.choices(["iadd", "add", "iadd_np", "dassign3", "dassign2", "dassign0", "set", "set3d", "eq", "read", "empty", "dempty"],
+                      [22, 14, 6, 10, 6, 4, 6, 6, 12, 8, 3, 3])[0]
+        if k in ("iadd", "add"):
+            form = r.choices(["good", "shifted", "badyx", "perm", "nocoord", "2d"], [60, 12, 10, 6, 6, 6])[0]
+            a = gen_xr(r, rows, cols, budget, 1.0, w=w if r.random() < 0.85 else None, form=form,
+                       dt=r.choice(FLOATS) if r.random() < 0.8 else r.choice(DTYPES))
+            ops.append({"op": k, "arr": a})
+            if k == "iadd" and r.random() < 0.5:
+                ops[-1]["via"] = "detector"
+        elif k == "iadd_np":
+            ops.append({"op": "iadd", "arr": gen_np(r, "photon", rows, cols, budget, 0.8)})
+        elif k in ("dassign3", "dassign2", "dassign0"):
+            ro, co = (rows, cols) if r.random() < 0.7 else r.choice(GEOMS)
+            content = (None if k == "dassign0" else
+                       gen_xr(r, ro, co, budget, 1.0, vclass=r.choice(["pos", "neg", "nan"])) if k == "dassign3" else
+                       gen_np(r, "photon", ro, co, budget, 1.0, vclass=r.choice(["pos", "neg"])))
+            ops.append({"op": "dassign", "other": {"kind": "photon", "rows": ro, "cols": co, "content": content}})
+        elif k == "set":
+            ops.append({"op": "set", "arr": gen_np(r, "photon", rows, cols, budget, 0.8)})
+        elif k == "set3d":
+            ops.append({"op": "set3d", "arr": gen_xr(r, rows, cols, budget, 0.7)})
+        elif k == "eq":
+            ro, co = (rows, cols) if r.random() < 0.7 else r.choice(GEOMS)
+            v = r.random()
+            content = (copy.deepcopy(first) if v < 0.35 and (ro, co) == (rows, cols) else
+                       gen_xr(r, ro, co, budget, 1.0, vclass="pos") if v < 0.7 else
+                       gen_np(r, "photon", ro, co, budget, 1.0, vclass="pos") if v < 0.85 else None)
+            ops.append({"op": r.choice(["eq", "eqrev"]), "other": {"kind": "photon", "rows": ro, "cols": co, "content": content}})
+        elif k == "read":
+            ops.append({"op": r.choice(["read3d", "read3d", "read", "asarray"])})
+        elif k == "empty":
+            ops.append({"op": "empty"})
+        else:
+            ops.append({"op": "dempty", "reset": r.random() < 0.5})
+        if r.random() < 0.3:
+            ops.append({"op": "read3d"})
+    return {"det": det, "rows": rows, "cols": cols, "bucket": "photon", "ops": ops}
+
+
+def gen_family_cases(ctx: Ctx, n: int, salt: str = "families"):
+    r = ctx.rng(salt)
+    dets = ["mkid", "ccd", "mkid", "cmos", "mkid", "apd"]
+    out = []
+    for i in range(n):
+        det = dets[i % len(dets)]
+        rows, cols = r.choice(GEOMS)
+        if i % 3 == 2:
+            out.append(gen_3d_case(r, det, rows, cols))
+        else:
+            bucket = "phase" if (det == "mkid" and r.random() < 0.6) else r.choice(buckets_of(det))
+            out.append(gen_reset_case(r, det, bucket, rows, cols))
+    return out
+
 
 
 def alphabet(bucket, rows, cols):
@@ -285,6 +527,7 @@ def alphabet(bucket, rows, cols):
         {"op": "add", "arr": np_([cols], good_dt, [1] * cols)},
         {"op": "empty"},
         {"op": "read"},
+        {"op": "asarray"},
         {"op": "dempty", "reset": True},
         {"op": "dempty", "reset": False},
         {"op": "eq", "other": {"kind": bucket, "rows": rows, "cols": cols, "content": None}},
@@ -306,10 +549,19 @@ def alphabet(bucket, rows, cols):
                "data": [-4] + [1] * (2 * n - 1)}
         x3bad = {"xr": {"dims": [0, 1, 2], "wl": [400, 420]}, "shape": [2, cols, rows + 1], "dt": fl,
                  "data": [1] * (2 * cols * (rows + 1))}
+        # negatives TOGETHER with NaN / +inf (2-D and 3-D): reductions such as min()/sum() behave differently
+        mix2 = np_([rows, cols], fl, [-2, "nan"] + [3] * (n - 2))
+        mix2i = np_([rows, cols], "float64", ["inf", -7] + [1] * (n - 2))
+        x3mix = {"xr": {"dims": [0, 1, 2], "wl": [400, 420]}, "shape": [2, rows, cols], "dt": fl,
+                 "data": ["nan", -4] + [1] * (2 * n - 2)}
+        ops += [{"op": "set", "arr": mix2}, {"op": "set", "arr": mix2i}, {"op": "set3d", "arr": x3mix}]
         ops += [{"op": "set3d", "arr": x3}, {"op": "set3d", "arr": x3n}, {"op": "set3d", "arr": x3bad},
                 {"op": "iadd", "arr": x3}, {"op": "iadd", "arr": x3n}, {"op": "read3d"},
                 {"op": "eq", "other": {"kind": "photon", "rows": rows, "cols": cols, "content": x3}}]
     else:
+        ops += [{"op": "iadd", "arr": {"xr": {"dims": [1, 2], "wl": None}, "shape": [rows, cols], "dt": good_dt, "data": [2] * n}},
+                {"op": "add", "arr": {"xr": {"dims": [1, 2], "wl": None}, "shape": [rows, cols], "dt": good_dt, "data": [3] * n},
+                 "via": "detector"}]
         ops += [{"op": "update", "arr": None}, {"op": "update", "arr": ok},
                 {"op": "update", "arr": np_([rows, cols + 1], good_dt, [1] * (rows * (cols + 1)))}]
     return ops
@@ -327,6 +579,59 @@ def exhaustive_cases(depth: int):
             allseq += seqs
         for s in allseq:
             cases.append({"det": det, "rows": rows, "cols": cols, "bucket": bucket, "ops": copy.deepcopy(s)})
+    return cases
+
+
+def small_alphabet(bucket, rows, cols):
+    """A dozen operations per bucket chosen so that every branch of the setters, of += (empty / initialised, accepted /
+    clipped / rejected before / rejected after the addition), of the resets and of == is reachable: all sequences of
+    length 3 are enumerated in the thorough tier."""
+    al = alphabet(bucket, rows, cols)
+    n = rows * cols
+    good_dt = ALLOWED[bucket][1]
+
+    def np_(shape, dt, data):
+        return {"xr": None, "shape": shape, "dt": dt, "data": data}
+
+    def pick(pred):
+        return next(o for o in al if pred(o))
+
+    ok = pick(lambda o: o["op"] == "set")["arr"]
+    ops = [{"op": "set", "arr": ok},
+           {"op": "set", "arr": np_([cols, rows], good_dt, list(range(n)))},
+           {"op": "iadd", "arr": ok, "via": "detector"},
+           {"op": "iadd", "arr": np_([rows, cols], "complex128", [1] * n)},
+           {"op": "add", "arr": np_([cols], good_dt, [1] * cols)},
+           {"op": "empty"}, {"op": "dempty", "reset": True}, {"op": "read"}, {"op": "asarray"},
+           {"op": "eq", "other": {"kind": bucket, "rows": rows, "cols": cols, "content": ok}},
+           {"op": "eqrev", "other": {"kind": bucket, "rows": rows, "cols": cols, "content": None}}]
+    if bucket == "photon":
+        x3 = pick(lambda o: o["op"] == "set3d")["arr"]
+        x3n = {"xr": {"dims": [0, 1, 2], "wl": [400, 420]}, "shape": [2, rows, cols], "dt": "float32",
+               "data": [-4] + [1] * (2 * n - 1)}
+        ops += [{"op": "set", "arr": np_([rows, cols], "float32", [-1, "nan"] + [3] * (n - 2))},
+                {"op": "iadd", "arr": np_([rows, cols], "float64", [-9] + [0] * (n - 1))},
+                {"op": "set3d", "arr": x3}, {"op": "iadd", "arr": x3n}, {"op": "read3d"},
+                {"op": "dassign", "other": {"kind": "photon", "rows": cols, "cols": rows + 1,
+                                            "content": np_([cols, rows + 1], good_dt, [1] * (cols * (rows + 1)))}}]
+    else:
+        ops += [{"op": "iadd", "arr": {"xr": {"dims": [1, 2], "wl": None}, "shape": [rows, cols], "dt": good_dt, "data": [2] * n}},
+                {"op": "update", "arr": None},
+                {"op": "update", "arr": np_([rows, cols + 1], good_dt, [1] * (rows * (cols + 1)))}]
+        if bucket != "phase":
+            ops.append({"op": "dassign", "other": {"kind": bucket, "rows": rows, "cols": cols, "content": ok}})
+    return ops
+
+
+def exhaustive3_cases():
+    cases = []
+    for det, bucket in [("ccd", "photon"), ("cmos", "pixel"), ("apd", "image"), ("mkid", "phase")]:
+        rows, cols = 2, 3
+        al = small_alphabet(bucket, rows, cols)
+        for a in al:
+            for b in al:
+                for c in al:
+                    cases.append({"det": det, "rows": rows, "cols": cols, "bucket": bucket, "ops": copy.deepcopy([a, b, c])})
     return cases
 
 
@@ -398,6 +703,8 @@ def emit_op(o) -> str:
         return f"ODAssign {emit_cont(o['other'])}"
     if k == "dempty":
         return f"ODEmpty {core.cbool(bool(o['reset']))}"
+    if k == "asarray":
+        return "OAsArray"
     raise ValueError(k)
 
 
@@ -408,6 +715,8 @@ def emit_out(res) -> str:
     if t == "raise":
         return "(Raise %s)" % {"TypeError": "TypeError", "ValueError": "ValueError"}.get(res["cls"], "OtherError")
     if t == "arr":
+        if res["arr"] is None:
+            return "RetNone"                     # a getter returned None instead of raising
         return f"(RetArr {emit_arr(res['arr'])})"
     if t == "bool":
         return f"(RetBool {core.cbool(res['v'])})"
@@ -581,7 +890,7 @@ def nontrivial(case, obs) -> bool:
         before = obs[i - 1]["state"] if i > 0 else None
         if before is None and o["op"] not in ("empty", "dempty"):
             return True
-        if obs[i]["out"]["t"] == "raise" and any(x["op"] in ("read", "read3d") for x in case["ops"][i + 1:]):
+        if obs[i]["out"]["t"] == "raise" and any(x["op"] in ("read", "read3d", "asarray") for x in case["ops"][i + 1:]):
             return True
     return False
 
@@ -606,7 +915,9 @@ def add_violations(ctx: Ctx, viol, do_shrink=True):
                 o2 = core.run_driver(ctx, "c13", [small], workers=1)[0]
                 if "obs" in o2:
                     v2 = to_violation(small, o2["obs"], len(small["ops"]) - 1, cl)
-                    v = v2
+                    # never let the shrinker drift from a new violation into a case that is a KNOWN finding
+                    if not any(core.finding_matches(e, v2) for e in findings):
+                        v = v2
         v.what += f" [{len(lst)} case(s) with this signature]"
         if known:
             n_known[0] += 1
@@ -651,8 +962,8 @@ def cross_check_type_lists(ctx: Ctx):
 def run(ctx: Ctx):
     ctx.trusted += TRUSTED
     ctx.assumptions += [
-        "operands are numpy.ndarray or xarray.DataArray objects (what the type annotations allow); Python scalars/lists "
-        "are not generated",
+        "operands are numpy.ndarray or xarray.DataArray objects (DataArrays are handed to the ArrayBase buckets as well); "
+        "Python scalars/lists are not generated",
         "array values: small integers (all partial sums below 2048, exact in float16), NaN, +-inf; complex values have "
         "imaginary part 0",
         "xarray in-place addition is modelled only for DataArrays with dims (wavelength, y, x) and a wavelength "
@@ -670,8 +981,14 @@ def run(ctx: Ctx):
     cases += exhaustive_cases(1)
     cases += gen_cases(ctx, ctx.budget(700, 4000), "valid", 0.8)
     cases += gen_cases(ctx, ctx.budget(350, 2000), "malformed", 0.3)
+    cases += gen_eq_cases(ctx, ctx.budget(200, 1500))
+    cases += gen_family_cases(ctx, ctx.budget(240, 1500))
     if not ctx.quick:
         cases += exhaustive_cases(2)
+        e3 = exhaustive3_cases()
+        ctx.cov["exhaustive_note"] = (f"all sequences of length <= 2 over the one-op alphabet of every bucket and all {len(e3)} "
+                                      "sequences of length 3 over a reduced alphabet (photon, pixel, image, phase)")
+        cases += e3
     pairs, mism, viol, unm = evaluate(ctx, cases, "c")
     account(ctx, pairs, mism, unm, n_corpus)
     add_violations(ctx, viol)
@@ -688,6 +1005,51 @@ def run(ctx: Ctx):
             ctx.broken.append(Broken("theorem", "coqchk of Properties/C13.v", core.tail(out, 20)))
     if ctx.broken and not new_violations(ctx):
         search(ctx)
+    ctx.max_reported = 8
+    order_violations(ctx)
+
+
+def conditions(case, obs):
+    """Labels of the property-relevant situations a case step exercises (measured into the evidence, so that
+    constant or near-constant conditions of the generator show up)."""
+    out = []
+    bucket = case["bucket"]
+    prev_raise = False
+    for i, o in enumerate(case["ops"]):
+        before = obs[i - 1]["state"] if i > 0 else None
+        res = obs[i]["out"]
+        st = state_class(before)
+        k = o["op"]
+        ok = res["t"] != "raise"
+        tag = "ok" if ok else "raise:" + res["cls"]
+        if k in ("iadd", "add"):
+            a = o["arr"]
+            form = ("xr" if a["xr"] is not None else "np")
+            bc = "" if a["xr"] is not None or before is None or a["shape"] == before["shape"] else ":bcast"
+            out.append(f"{'photon' if bucket == 'photon' else 'base'}.{k} on {st} {form}{bc} -> {tag}")
+            if ok and before is not None and any((isinstance(v, int) and v < 0) or v == "-inf" for v in a["data"]):
+                out.append(f"{'photon' if bucket == 'photon' else 'base'}.{k} negative operand accepted on initialised")
+            if ok and before is not None and before["dt"] != a["dt"]:
+                out.append(f"{k} mixed dtypes accepted")
+        elif k in ("set", "set3d", "update"):
+            out.append(f"{'photon' if bucket == 'photon' else 'base'}.{k} on {st} -> {tag}")
+        elif k in ("eq", "eqrev"):
+            ot = o["other"]
+            rel = ("other_kind" if ot["kind"] != bucket else
+                   "same_geom" if (ot["rows"], ot["cols"]) == (case["rows"], case["cols"]) else "other_geom")
+            out.append(f"eq {st} vs {state_class(ot['content'])} {rel} -> {res.get('v', tag)}")
+        elif k == "dassign":
+            out.append(f"dassign {bucket if bucket == 'photon' else 'base'} on {st} from {state_class(o['other']['content'])} -> {tag}")
+        elif k == "dempty":
+            out.append(f"dempty({o['reset']}) {bucket} {st}")
+        elif k in ("read", "read3d", "asarray"):
+            out.append(f"{k} {'photon' if bucket == 'photon' else 'base'} {st} -> {tag}")
+            if prev_raise:
+                out.append("read right after a rejected operation")
+        elif k == "empty":
+            out.append(f"empty {bucket if bucket in ('photon', 'pixel') else 'base'} {st}")
+        prev_raise = (not ok) and k not in ("read", "read3d", "asarray", "eq", "eqrev")
+    return out
 
 
 def account(ctx: Ctx, pairs, mism, unm, n_corpus=0):
@@ -704,6 +1066,9 @@ def account(ctx: Ctx, pairs, mism, unm, n_corpus=0):
             if "arr" in op and op["arr"] is not None:
                 ctx.dist("operand_dtype", op["arr"]["dt"])
                 ctx.dist("operand_class", operand_class(c["bucket"], c["rows"], c["cols"], op["arr"]))
+                ctx.dist("operand_values", value_class(op["arr"]))
+        for lab in conditions(c, o):
+            ctx.dist("condition", lab)
         if nontrivial(c, o):
             seen.add(json.dumps(c, sort_keys=True))
     ctx.cov["distinct_nontrivial"] = ctx.cov.get("distinct_nontrivial", 0) + len(seen)
@@ -720,6 +1085,26 @@ def account(ctx: Ctx, pairs, mism, unm, n_corpus=0):
                         results=[ob["out"].get("name", ob["out"]["t"]) for ob in o]))
 
 
+def defect_class(v: Violation):
+    """Coarse class of a violation: which operation / which side of a comparison breaks which clause."""
+    g = v.sig
+    if "left" in g:
+        return (g.get("clause"), g.get("left"), g.get("right"), g.get("relation"), g.get("result"),
+                "photon" if g.get("bucket") == "photon" else "arraybase")
+    return (g.get("clause"), g.get("op") if g.get("op") != "add" else "iadd",
+            "empty" if g.get("state") == "empty" else "initialised", "photon" if g.get("bucket") == "photon" else "arraybase")
+
+
+def order_violations(ctx: Ctx):
+    """One violation of every defect class first (so that the few VIOLATION lines of a run name different defects)."""
+    first, rest, seen = [], [], set()
+    for v in ctx.violations:
+        k = defect_class(v)
+        (rest if k in seen else first).append(v)
+        seen.add(k)
+    ctx.violations[:] = first + rest
+
+
 def new_violations(ctx: Ctx):
     fs = core.load_findings(ctx.prop)
     return [v for v in ctx.violations if not any(core.finding_matches(e, v) for e in fs)]
@@ -728,7 +1113,7 @@ def new_violations(ctx: Ctx):
 def search(ctx: Ctx):
     """A proof obligation or the correspondence broke: look harder for a concrete failing input."""
     ctx.log("searching for a concrete failing input (all pairs of the op alphabet, larger random budget)")
-    cases = exhaustive_cases(2) + gen_cases(ctx, 1500, "search", 0.5)
+    cases = exhaustive_cases(2) + gen_cases(ctx, 1500, "search", 0.5) + gen_eq_cases(ctx, 600, "search_eq") + gen_family_cases(ctx, 600, "search_fam")
     for b in ctx.broken:
         if isinstance(b.case, dict) and "case" in b.case:
             cases.append(b.case["case"])
@@ -769,21 +1154,25 @@ META = dict(
     level_text=(
         "Coq theorems over an executable model of the five container classes and the detector's bucket setters, "
         "parametrised by tables regenerated from the source on every run (TYPE_LISTs, the guard sequences of the three "
-        "validating functions, what each Detector setter does) and by numpy's in-place casting table: for ALL operation "
-        "sequences (induction over the op list) the invariant holds for pixel/signal/image/phase, and for photon for all "
-        "sequences that avoid the three places where the code admits an unvalidated array (proved refutations with "
-        "witnesses: += on an empty photon, += of negatives, assignment through the detector's photon setter); a failed "
-        "operation leaves the state untouched; reading an empty container raises; the equality specification is proved "
-        "for initialised operands and refuted (with witnesses) for empty ones. The model is tied to the code by running "
-        "generated operation sequences on buckets of real detectors of all four types and comparing, inside Coq and "
-        "after every operation, the stored array (shape, dtype, every element), .shape, .dtype, the returned value and "
-        "the exception class with the model; the implementation's states are additionally judged inside Coq against "
-        "the property's specification. That part is testing, not proof."),
+        "validating functions, what each Detector setter does, the shape of Photon.__iadd__/__add__, of "
+        "ArrayBase.__iadd__/__add__/__eq__ and of Photon.__eq__) and by numpy's in-place casting table: for ALL "
+        "operation sequences (induction over the op list; set, set3d, update, +=, +, empty, reads incl. __array__, ==, "
+        "detector assignment, detector.empty) on ALL five buckets, from every state satisfying the invariant whose stored "
+        "array its own setter accepts (in particular from a fresh detector), every intermediate and the final state "
+        "satisfy the invariant; a failed operation leaves the state untouched; reading an empty container raises; "
+        "== returns exactly the equality specification, is symmetric and never raises, for all pairs of containers "
+        "satisfying the invariant (NaN-free contents). No operation is excluded and no statement is refuted any more "
+        "(C13-F2a/b/c/d, C13-F3a/b/c repaired in the code; the translator maps the old shapes to tables that fail "
+        "C13_source_tables_ok). The model is tied to the code by running generated operation sequences on buckets of "
+        "real detectors of all four types and comparing, inside Coq and after every operation, the stored array "
+        "(shape, dtype, every element), .shape, .dtype, the returned value and the exception class with the model; the "
+        "implementation's states are additionally judged inside Coq against the property's specification. That part "
+        "is testing, not proof."),
     level_note=(
         "Trusted: Coq kernel + vm_compute; translator/c13.py; the correspondence harness and driver; numpy/xarray "
-        "arithmetic, broadcasting, clipping and comparison semantics as modelled (elements are small integers, NaN, "
-        "+-inf); operands are ndarrays/DataArrays; xarray in-place addition modelled for (wavelength, y, x) DataArrays "
-        "with coordinates only; aliasing of stored arrays not modelled."),
+        "arithmetic, broadcasting, clipping and comparison semantics as modelled (elements are integers exact in the "
+        "dtype, NaN, +-inf); operands are ndarrays/DataArrays; xarray in-place addition modelled for (wavelength, y, x) "
+        "DataArrays with coordinates only; aliasing of stored arrays not modelled."),
     technique="Coq invariant proof over op sequences + regenerated tables + in-Coq correspondence/spec evaluation",
     design_ref="DESIGN.md section 6, C13",
 )
